@@ -418,6 +418,13 @@ def c05(run):
     res = lib.run_tlc("MC_C05", gen_cfg(full), simulate=25 if q else 600, depth=40, seed=run.seed, workers=8, coverage=False)
     run.add_tlc("MC_C05(simulate, files up to 60 symbols)", res)
     lexh.replay(run, "C05", [b for b in res.lines.get("BEH", []) if len(b["text"]) > 20], run.seed + 1, limit=3000 if q else 30000)
+    # balanced function/macro/class blocks, documented or not, in any letter case and layout: processed to completion
+    import aggfamily
+    cat = lib.run_tlc("MC_C05", gen_cfg(C05_CONFIGS["bracket"], maxlen=6), coverage=False, tags=("TRIVIA",)).lines["TRIVIA"][0]
+    trivia = {k: [lexh.concretize(t, run.seed + j)[0] for j, t in enumerate(v)] for k, v in cat.items()}
+    for module, maxlen, maxdepth in [("MC_C02b", 5, 3), ("MC_C03", 5, 3)]:
+        r2 = tlc_agg(run, "%s(len<=%d): blocks in varied case/layout" % (module, maxlen), module, cfg([], maxlen, maxdepth))
+        aggfamily.replay_completion(run, r2, trivia, run.seed, limit=600 if q else 6000)
     # binding B: token streams of the real lexer on files TLC did not choose
     import aggtrace
     import glob as _glob
